@@ -158,9 +158,9 @@ def has_pair_ty(t):
 
 # ---------------------------------------------------------------------------------------------------------- values
 class V:
-    __slots__ = ("kind", "m", "leaf", "pos", "elems", "node", "of", "fuzzy", "ops")
+    __slots__ = ("kind", "m", "leaf", "pos", "elems", "node", "of", "fuzzy", "ops", "ctl")
 
-    def __init__(self, kind, m=None, leaf=E, pos=None, elems=None, node=None, of=None, fuzzy=False, ops=E):
+    def __init__(self, kind, m=None, leaf=E, pos=None, elems=None, node=None, of=None, fuzzy=False, ops=E, ctl=E):
         self.kind = kind
         self.m = m or {}
         self.leaf = leaf
@@ -169,6 +169,7 @@ class V:
         self.node = node
         self.of = of          # ruleof / text: the local the pair lives in
         self.fuzzy = fuzzy
+        self.ctl = ctl        # rules in m the value depends on only through control (it was selected by a test on such a pair)
         self.ops = ops        # order-disturbing operations (sort, reverse, dedup, hashed collection) the value went through
 
     @property
@@ -178,7 +179,7 @@ class V:
     def sig(self):
         return (self.kind, tuple(sorted((r, tuple(sorted(a))) for r, a in self.m.items())), tuple(sorted(self.leaf)), self.fuzzy,
                 tuple(e.sig() if e is not None else None for e in self.elems) if self.elems is not None else None,
-                (self.pos[1], self.pos[0].sig()) if self.pos else None, tuple(sorted(self.ops)))
+                (self.pos[1], self.pos[0].sig()) if self.pos else None, tuple(sorted(self.ops)), tuple(sorted(self.ctl)))
 
     def __repr__(self):
         return "V(%s %s%s%s)" % (self.kind, sorted(self.m), " leaf=%s" % sorted(self.leaf) if self.leaf else "", " fuzzy" if self.fuzzy else "")
@@ -230,7 +231,23 @@ def with_ops(v, ops):
         return v
     if v is None:
         return V("val", ops=frozenset(ops))
-    return V(v.kind, v.m, v.leaf, v.pos, v.elems, v.node, v.of, v.fuzzy, v.ops | ops)
+    return V(v.kind, v.m, v.leaf, v.pos, v.elems, v.node, v.of, v.fuzzy, v.ops | ops, v.ctl)
+
+
+def ctl_of(*vs):
+    """rules that every one of the values that mentions them mentions only as control"""
+    ctl, data = set(), set()
+    for v in vs:
+        if v is None:
+            continue
+        if v.kind == "tuple":
+            c2 = ctl_of(*v.elems)
+            m2 = prov(v)[0]
+        else:
+            c2, m2 = v.ctl, v.m
+        ctl |= c2
+        data |= set(m2) - c2
+    return frozenset(ctl - data)
 
 
 def mkval(*vs, **kw):
@@ -241,7 +258,7 @@ def mkval(*vs, **kw):
         m, leaf, fz, ops = m_join(m, a), leaf | b, fz or c, ops | ops_of(v)
     if not m and not fz and not ops:
         return None
-    return V("val", m, leaf, fuzzy=fz, ops=ops)
+    return V("val", m, leaf, fuzzy=fz, ops=ops, ctl=ctl_of(*vs))
 
 
 def join(a, b):
@@ -264,7 +281,7 @@ def join(a, b):
             # the children from index k on of either parent
             pos = a.pos if a.pos[0] is b.pos[0] else (join(a.pos[0], b.pos[0]), a.pos[1])
         of = a.of if a.of == b.of else None
-        return V(k, m_join(a.m, b.m), a.leaf | b.leaf, pos=pos, of=of, fuzzy=a.fuzzy or b.fuzzy, ops=a.ops | b.ops)
+        return V(k, m_join(a.m, b.m), a.leaf | b.leaf, pos=pos, of=of, fuzzy=a.fuzzy or b.fuzzy, ops=a.ops | b.ops, ctl=ctl_of(a, b))
     if a.kind in PAIRLIKE and b.kind in PAIRLIKE:
         if {a.kind, b.kind} == {"pair", "opt"}:
             return V("opt", m_join(a.m, b.m), fuzzy=a.fuzzy or b.fuzzy, ops=a.ops | b.ops)
@@ -278,7 +295,7 @@ def join(a, b):
     for v in (a, b):
         x, y, z = prov(v)
         m, leaf, fz = m_join(m, x), leaf | y, fz or z
-    return V("val", m, leaf, fuzzy=fz, ops=ops_of(a) | ops_of(b))
+    return V("val", m, leaf, fuzzy=fz, ops=ops_of(a) | ops_of(b), ctl=ctl_of(a, b))
 
 
 def narrowed(v, rs, keep=True):
@@ -1003,6 +1020,8 @@ class BuilderAI:
                         rec["unknown"] = True       # built from a local whose origin the interpreter did not follow
                     for op in ops_of(v):
                         rec["ops"].setdefault(op, "%s:%d" % (self.cur.file, n["s"][0]))
+                    c2 = ctl_of(v)
+                    rec["data"] = rec.get("data", set()) | (set(m) - c2)
                     rec["fns"].add(self.cur.path)
                     rec["sites"] += 1
             if "base" in n and isinstance(n["base"], dict):
@@ -1143,9 +1162,10 @@ class BuilderAI:
         if not m and not fz:
             return out
         if out is None:
-            return V("val", m, fuzzy=fz)
+            return V("val", m, fuzzy=fz, ctl=frozenset(m))
         if out.kind in ("val", "text", "ruleof"):
-            return V("val", m_join(out.m, m), out.leaf, fuzzy=out.fuzzy or fz)
+            return V("val", m_join(out.m, m), out.leaf, fuzzy=out.fuzzy or fz, ops=out.ops,
+                     ctl=frozenset(out.ctl | (set(m) - (set(out.m) - out.ctl))))
         return out
 
     def _ev_match(self, n, env):
@@ -1442,14 +1462,14 @@ class BuilderAI:
         if m in ELEM or m in ORDER_FREE:
             # one element / a count / a folded value: the order of the collection it came from no longer matters
             if out is not None and ops and (out.ops & ops):
-                out = V(out.kind, out.m, out.leaf, out.pos, out.elems, out.node, out.of, out.fuzzy, out.ops - ops)
+                out = V(out.kind, out.m, out.leaf, out.pos, out.elems, out.node, out.of, out.fuzzy, out.ops - ops, out.ctl)
             ops = E
         rl = peel(recv)
         op = self._reorder_op(n, m, args, rv)
         if op:
             if op == "rev" and "rev" in ops:
                 ops = ops - {"rev"}         # reversed twice
-                out = V(out.kind, out.m, out.leaf, out.pos, out.elems, out.node, out.of, out.fuzzy, out.ops - {"rev"}) if out is not None else None
+                out = V(out.kind, out.m, out.leaf, out.pos, out.elems, out.node, out.of, out.fuzzy, out.ops - {"rev"}, out.ctl) if out is not None else None
             else:
                 ops = ops | {op}
             if rl.get("k") == "Path" and "local" in rl and _ty(n) in ("()", ""):
